@@ -820,4 +820,98 @@ def no_stale(ctx):
                        'rays are launched from an earlier field / pupil state', min_methods=1)
 
 
-RULES = [no_stale, config_table, aim, trace_entry, in_disk, registry]
+def field_wiring(ctx):
+    from .common import arg_wiring
+    res = arg_wiring(ctx, 'FIELD-WIRING', [
+        ('Optic.add_field', 'Field.__init__',
+         {'self.field_type': 'field_type', 'x': 'x', 'y': 'y',
+          'vx': 'vignette_factor_x', 'vy': 'vignette_factor_y'}),
+        ('Optic.add_field', 'FieldGroup.add_field', {'new_field': 'field'}),
+        ('Optic.set_aperture', 'Aperture.__init__',
+         {'aperture_type': 'aperture_type', 'value': 'value'}),
+        ('Optic.add_wavelength', 'WavelengthGroup.add_wavelength',
+         {'value': 'value', 'is_primary': 'is_primary', 'unit': 'unit'}),
+        ('WavelengthGroup.add_wavelength', 'Wavelength.__init__',
+         {'value': 'value', 'is_primary': 'is_primary', 'unit': 'unit'}),
+    ])
+    P = ctx.P
+    from ..match import find
+    # Field stores what it is given; normalised coordinates divide by the
+    # maximum radial field
+    fi = P.func('Field.__init__')
+    res.saw(fi)
+    want = {'field_type': 'field_type', 'x': 'x', 'y': 'y',
+            'vx': 'vignette_factor_x', 'vy': 'vignette_factor_y'}
+    got = {}
+    for st in ast.walk(fi.node):
+        if isinstance(st, ast.Assign) and isinstance(
+                st.targets[0], ast.Attribute):
+            got[st.targets[0].attr] = unparse(st.value)
+    if got == want:
+        res.ok('Field.__init__ stores each parameter under its own name')
+    else:
+        res.fail(ctx.finding('FIELD-WIRING', fi, fi.node,
+                             f'Field.__init__ stores {got}',
+                             construct='Field.__init__ stores'))
+    gc = P.func('FieldGroup.get_field_coords')
+    res.saw(gc)
+    from ..match import find_seq
+    if find_seq(gc, ['$m = self.max_field',
+                     '[(float($x / $m), float($y / $m)) '
+                     'for $x, $y in zip(self.x_fields, self.y_fields)]']) or \
+            find(gc, '[(float($x / self.max_field), float($y / self.max_field))'
+                     ' for $x, $y in zip(self.x_fields, self.y_fields)]'):
+        res.ok('get_field_coords = (x, y) / max_field per field')
+    else:
+        res.fail(ctx.finding('FIELD-WIRING', gc, gc.node,
+                             'normalised field coordinates are not '
+                             '(x / max_field, y / max_field) per field',
+                             construct='get_field_coords'))
+    # wavelength units: value in micrometres
+    cv = P.func('Wavelength._convert_to_um')
+    res.saw(cv)
+    for unit, num, den in (('nm', 1, 1000), ('um', 1, 1), ('mm', 1000, 1),
+                           ('cm', 10000, 1), ('m', 1000000, 1)):
+        tabv = None
+        for st in ast.walk(cv.node):
+            if isinstance(st, ast.Dict):
+                for k, v in zip(st.keys, st.values):
+                    if isinstance(k, ast.Constant) and k.value == unit:
+                        tabv = v
+        from fractions import Fraction
+        ok = tabv is not None and isinstance(tabv, ast.Constant) and \
+            Fraction(str(tabv.value)) == Fraction(num, den)
+        if ok:
+            res.ok(f'1 {unit} = {num}/{den} um')
+        else:
+            res.fail(ctx.finding('FIELD-WIRING', cv, cv.node,
+                                 f'conversion factor of {unit!r} to um',
+                                 construct=f'unit {unit}'))
+    s_ = Code(P, cv)
+    if 'conversion_factor = unit_conversion[self._unit]' in s_ and \
+            'return self._value * conversion_factor' in s_:
+        res.ok('value in um = value * factor[unit]')
+    else:
+        res.fail(ctx.finding('FIELD-WIRING', cv, cv.node,
+                             'value in um is not value * factor[unit]',
+                             construct='unit conversion formula'))
+    wi = P.func('Wavelength.__init__')
+    res.saw(wi)
+    si = Code(P, wi)
+    order = [si.index(x) for x in ('self._value = value',
+                                   'self._unit = unit.lower()',
+                                   'self._value_in_um = self._convert_to_um()')]
+    vp = P.classes['Wavelength'].props.get('value')
+    if -1 not in order and order[2] > max(order[:2]) and vp is not None and \
+            find(vp, 'return self._value_in_um'):
+        res.ok('Wavelength: converted after value and unit are stored; '
+               '.value is the converted number')
+    else:
+        res.fail(ctx.finding('FIELD-WIRING', wi, wi.node,
+                             'Wavelength.value is not the given value '
+                             'converted to micrometres',
+                             construct='Wavelength value'))
+    return res
+
+
+RULES = [no_stale, field_wiring, config_table, aim, trace_entry, in_disk, registry]
